@@ -28,6 +28,8 @@ import IgrisModel.C14.Ledger
 import IgrisModel.C14.MachX
 import IgrisModel.C14.Access
 import IgrisModel.C14.Width
+import IgrisModel.C14.Lemmas3
+import IgrisModel.C14.LedgerX
 
 namespace Igris.C14
 open Igris.Proto
@@ -723,5 +725,260 @@ example : SAbs 3 ⟨[0x61, 0x62, 0xAA, 0xAA], 2⟩ [0x61, 0x62] := ⟨rfl, rfl, 
 example : Abs 2 ⟨[.obj (some 7), .raw], 1⟩ [some 7] :=
   ⟨rfl, rfl, by decide, by intro p; match p with | 0 => rfl | 1 => rfl | (p + 2) => simp [slotAt]⟩
 example : (SOp.ptr 0 [0x61, 0]).wf := by simp [SOp.wf]
+
+/-! # Extension round 3
+
+## the size counter has the bit width of its C type
+
+`stepW w` / `runW w` (`Model3.lean`) is the machine of `Model.lean` with a
+`w`-bit `m_size`: every store keeps `n % 2^w`, the loops that count `++m_size`
+count through the narrow counter.  The driver runs THIS machine, with the
+width that the harness reads out of the compiled code (`8 * sizeof(m_size)`) —
+so the theorems below are what carries every list-level theorem of this file
+over to the code's counter type. -/
+
+/-- the counter of EVERY state that represents a reference sequence is stored
+    exactly iff the capacity fits the counter (`N + 1` values are needed) -/
+theorem width_exact_iff (w N : Nat) :
+    (∀ v es, Abs N v es → stored w v.size = v.size) ↔ N < 2 ^ w := by
+  constructor
+  · intro h
+    have ha : Abs N ⟨List.replicate N (.obj none), N⟩ (List.replicate N none) :=
+      ⟨by simp, by simp, by simp, by
+        intro p
+        simp only [slotAt, List.length_replicate, List.getElem?_replicate]
+        by_cases hp : p < N <;> simp [hp]⟩
+    have := h _ _ ha
+    simp only [stored] at this
+    have hp : 0 < 2 ^ w := Nat.pos_of_ne_zero (by simp)
+    have := Nat.mod_lt N hp
+    omega
+  · intro h v es ha
+    exact stored_small (by have := ha.size; have := ha.le; omega)
+
+/-- ONE operation: with `N < 2^w` the `w`-bit machine IS the machine of the
+    theorems above, from every state that represents reference sequences -/
+theorem width_step_exact {w : Nat} {c : Cfg} {m : Mach} {sp : SpecRegs} (h : MInv c m sp) (hN : c.N < 2 ^ w) (op : Op) :
+    stepW w c m op = step c m op := stepW_eq h hN op
+
+/-- EVERY history: for `N < 2^w` the run with the `w`-bit counter is the run of
+    the natural-number model, hence no fault and the reference sequences —
+    `sv_history_refines`, `sv_no_fault`, `sv_size_le_N_and_contents`,
+    `sv_lifetime_*` hold verbatim for `runW w` (w = 64: every N < 2^64) -/
+theorem width_history_transfers (w : Nat) (c : Cfg) (hN : c.N < 2 ^ w) (ops : List Op) :
+    runW w c ops Mach.init = run c ops Mach.init ∧
+    ∃ m, runW w c ops Mach.init = .ok m ∧ MInv c m (specRun c ops (fun _ => none)) := by
+  have e := runW_eq hN ops _ _ (minv_init c)
+  obtain ⟨m, h1, h2⟩ := sv_history_refines c ops
+  exact ⟨e, m, by rw [e]; exact h1, h2⟩
+
+/-- and for `N = 2^w` it is not (w = 2, N = 4): the fourth push wraps the counter
+    to 0 and the fifth constructs over the live element in slot 0; `resize(4)` of a
+    one-element container wraps inside its own loop and constructs over slot 0;
+    the natural-number model ends both histories with 4 elements -/
+theorem width_machine_witness :
+    isFault .ctorOverLive (runW 2 ⟨4, 1, false, true⟩ [.new 0, .push 0 1, .push 0 2, .push 0 3, .push 0 4, .push 0 5] Mach.init) = true ∧
+    isFault .ctorOverLive (runW 2 ⟨4, 1, false, true⟩ [.new 0, .push 0 1, .resize 0 4] Mach.init) = true ∧
+    (match run ⟨4, 1, false, true⟩ [.new 0, .push 0 1, .push 0 2, .push 0 3, .push 0 4, .push 0 5] Mach.init with
+      | .ok m => (m.regs 0).map (·.size) | _ => none) = some 4 ∧
+    (match runW 3 ⟨4, 1, false, true⟩ [.new 0, .push 0 1, .push 0 2, .push 0 3, .push 0 4, .push 0 5] Mach.init with
+      | .ok m => (m.regs 0).map (·.size) | _ => none) = some 4 := by decide
+
+/-- static_string: `push_back` / `(ptr,len)` need `N < 2^w`; the C-string
+    constructor stores `strlen(dat)` before it clamps, so it needs the LENGTH OF
+    THE ARGUMENT to fit the counter as well -/
+theorem ss_width_exact {w N : Nat} (hN : N < 2 ^ w) (junk arg : List Byte) :
+    (∀ s c, s.size ≤ N → sPushW w N s c = sPush N s c) ∧
+    (∀ sz, sCtorPtrLenW w N junk arg sz = sCtorPtrLen N junk arg sz) ∧
+    ((0 : Byte) ∈ arg → arg.length ≤ 2 ^ w → sCtorPtrW w N junk arg = sCtorPtr N junk arg) :=
+  ⟨fun s c hs => sPushW_eq hN s c hs, fun sz => sCtorPtrLenW_eq hN junk arg sz, fun h0 hl => sCtorPtrW_eq hN h0 hl⟩
+
+/-- EVERY history of string operations whose C-string arguments fit the counter:
+    the `w`-bit string machine is the machine of `ss_history_refines` -/
+theorem ss_width_history_transfers {w : Nat} (c : SCfg) (hj : c.junk.length = c.N + 1) (hN : c.N < 2 ^ w)
+    (ops : List SOp) (hwf : ∀ op, op ∈ ops → op.wf ∧ op.fitsW w) :
+    srunW w c ops (fun _ => none) = srun c ops (fun _ => none) :=
+  srunW_eq hj hN ops (fun _ => none) (fun _ => none) (fun _ => trivial) hwf
+
+example : (SOp.ptr 0 [0x61, 0]).wf ∧ (SOp.ptr 0 [0x61, 0]).fitsW 64 := by simp [SOp.wf, SOp.fitsW]
+
+/-- `static_string<3>("abcde")` with a 2-bit counter: strlen 5 is stored as 1, which
+    is not `> 3`: one character is kept instead of three -/
+theorem ss_width_witness :
+    (match sCtorPtrW 2 3 [0xAA, 0xAA, 0xAA, 0xAA] [0x61, 0x62, 0x63, 0x64, 0x65, 0] with
+      | .ok s => decide (s.size = 1) | _ => false) = true ∧
+    (match sCtorPtr 3 [0xAA, 0xAA, 0xAA, 0xAA] [0x61, 0x62, 0x63, 0x64, 0x65, 0] with
+      | .ok s => decide (s.size = 3) | _ => false) = true := by decide
+
+/-! ## writes through `operator[]`, `data()`, iterators, `front()`, `back()`, range-for -/
+
+/-- ONE operation of the machine that has the writes (`v[i] = x`, `v.front() = x`,
+    `v.back() = x`, `for (auto &e : v) e = x`, `T y = std::move(v[i])`) next to the
+    14 operations: no fault, the reference result, the ledger balance -/
+theorem sv_write_step_refines {c : Cfg} {m : Mach} {sp : SpecRegs} (h : MInv c m sp) (op : Op3) :
+    ∃ mr : Mach × Res, step3 c m op = .ok mr ∧ MInv c mr.1 (specStep3 c sp op) :=
+  step3_refines h op
+
+/-- EVERY history of the 14 operations and the writes, from no object -/
+theorem sv_write_history_refines (c : Cfg) (ops : List Op3) :
+    ∃ m, run3 c ops Mach.init = .ok m ∧ MInv c m (specRun3 c ops (fun _ => none)) :=
+  run3_refines ops _ _ (minv_init c)
+
+/-- per write: one assignment / move-from event on exactly that slot, no
+    constructor or destructor call, the size unchanged, and the sequence is the
+    reference's with that one element replaced (all of them for range-for) -/
+theorem sv_writes_exact (trk : Bool) {N : Nat} {v : SVec} {es : List Elem} (h : Abs N v es) (x : Nat) :
+    (∀ i, i < es.length → ∃ w, v.setAt i x = .ok (w, [⟨false, .asg, i⟩]) ∧ w.contents = es.set i (some x) ∧ w.size = v.size) ∧
+    (0 < es.length → (∃ w, v.setFront x = .ok (w, [⟨false, .asg, 0⟩]) ∧ w.contents = es.set 0 (some x)) ∧
+      (∃ w, v.setBack x = .ok (w, [⟨false, .asg, es.length - 1⟩]) ∧ w.contents = es.set (es.length - 1) (some x))) ∧
+    (∃ w tr, v.fillAll x = .ok (w, tr) ∧ w.contents = List.replicate es.length (some x) ∧ nC tr = 0 ∧ nD tr = 0) ∧
+    (∀ i, i < es.length → ∃ w, v.takeAt trk i = .ok (es.getD i none, w, [⟨false, .mv, i⟩]) ∧
+      w.contents = (if trk then es.set i none else es)) := by
+  refine ⟨?_, ?_, ?_, ?_⟩
+  · intro i hi
+    obtain ⟨w, p1, p2⟩ := setAt_spec h hi x
+    refine ⟨w, p1, p2.contents, ?_⟩
+    rw [p2.size, h.size]; simp
+  · intro hpos
+    obtain ⟨w, p1, p2⟩ := setAt_spec h hpos x
+    obtain ⟨w', q1, q2⟩ := setAt_spec h (show es.length - 1 < es.length by omega) x
+    exact ⟨⟨w, p1, p2.contents⟩, ⟨w', by simpa [SVec.setBack, h.size] using q1, q2.contents⟩⟩
+  · obtain ⟨w, tr, p1, p2, p3, p4⟩ := fillAll_spec h x
+    refine ⟨w, tr, p1, ?_, p3, p4⟩
+    rw [p2.contents]
+    apply List.ext_getElem?
+    intro p
+    simp [List.getElem?_replicate]
+    by_cases hp : p < es.length <;> simp [hp]
+  · intro i hi
+    obtain ⟨w, p1, p2⟩ := takeAt_spec trk h hi
+    exact ⟨w, p1, by rw [p2.contents]; rfl⟩
+
+example : (match SVec.setAt ⟨[.obj (some 7), .raw], 1⟩ 1 9 with | .error .useRaw => true | _ => false) = true := by decide
+
+/-! ## `erase` when an element move-assignment throws -/
+
+/-- `erase(begin()+i, begin()+j)` whose `(a+1)`-th element assignment throws (`a` =
+    the number that still succeed; a throwing assignment has changed neither
+    side): when `a` covers all `|es| − j` assignments it IS `erase`; otherwise no
+    fault, no constructor or destructor call, the size is unchanged and every
+    slot below it still holds a live object — the sequence is `specEraseFail`
+    (positions `[i,i+a)` hold what was at `[j,j+a)`, the sources not overwritten
+    are moved-from, the rest is untouched) — so the container is a valid
+    container (basic guarantee) and its destructor destroys exactly `|es|`
+    elements: nothing constructed is lost or destroyed twice -/
+theorem erase_assignment_throw (trk : Bool) {N : Nat} {v : SVec} {es : List Elem} (h : Abs N v es) {i j : Nat}
+    (hij : i < j) (hj : j ≤ es.length) (a : Nat) :
+    (es.length - j ≤ a → eraseX trk v i j a = (erase trk v i j).map (fun q => (q.1, q.2, false))) ∧
+    (a < es.length - j → ∃ w tr, eraseX trk v i j a = .ok (w, tr, true) ∧
+      Abs N w (specEraseFail trk es i j a) ∧ w.size = es.length ∧ w.contents.length = es.length ∧
+      w.contents.take i = es.take i ∧ nC tr = 0 ∧ nD tr = 0 ∧
+      ∃ w' tr', destructor w = .ok (w', tr') ∧ w'.slots = rawStore N ∧ nD tr' = es.length) := by
+  refine ⟨fun ha => eraseX_done_spec trk v i j a (by rw [h.size]; exact ha), ?_⟩
+  intro ha
+  obtain ⟨w, tr, p1, p2, p3, p4, p5⟩ := eraseX_fail_spec trk h hij hj ha
+  obtain ⟨w', tr', q1, q2, _, _, q5⟩ := destructor_destroys_all p2
+  have hlen : (specEraseFail trk es i j a).length = es.length := by simp [specEraseFail]
+  refine ⟨w, tr, p1, p2, p3, by rw [p2.contents, hlen], ?_, p4, p5, w', tr', q1, q2, by rw [q5, hlen]⟩
+  rw [p2.contents]
+  apply List.ext_getElem?
+  intro p
+  simp only [List.getElem?_take, specEraseFail, List.getElem?_map]
+  by_cases hp : p < i
+  · have hpl : p < es.length := by omega
+    simp only [hp, if_true, List.getElem?_range hpl, Option.map]
+    rw [if_neg (by omega), if_neg (by omega)]
+    simp [List.getD, List.getElem?_eq_getElem hpl]
+  · simp [hp]
+
+example : (match eraseX true ⟨[.obj (some 1), .obj (some 2), .obj (some 3)], 3⟩ 0 1 1 with
+    | .ok (w, _, true) => decide (w.contents = [some 2, none, some 3]) | _ => false) = true := by decide
+
+/-! ## the event-trace ledger over histories with throws -/
+
+/-- For EVERY history in which ANY operations throw at ANY of their element
+    constructions, the complete sequence of lifetime events (`runEvX`: what the
+    driver prints op by op, the events of failed calls and of the unwinding
+    destructor included) passes the ledger replay — no constructor event at a
+    live location, no destructor / assignment / move event at a dead one — and
+    ends with exactly the occupied slots of the final state. -/
+theorem sx_trace_passes_ledger (c : Cfg) (ops : List (Op × Nat)) :
+    ∃ m evs, runEvX c ops Mach.init = .ok (m, evs) ∧ runX c ops Mach.init = .ok m ∧
+      replayG evs (fun _ _ => false) = some (occR m.regs) := by
+  obtain ⟨m, evs, h1, _, h3⟩ := runEvX_replays ops _ _ (minv_init c)
+  rw [occR_init] at h3
+  exact ⟨m, evs, h1, runEvX_runX _ _ _ _ h1, h3⟩
+
+/-- EVERY ELEMENT CONSTRUCTED IS DESTROYED EXACTLY ONCE, also when constructors
+    throw: any history with failures followed by the destruction of all objects
+    replays from "nothing live" to "nothing live" -/
+theorem sx_every_element_destroyed_exactly_once (c : Cfg) (ops : List (Op × Nat)) :
+    ∃ m evs, runEvX c (ops ++ [(.finish, 0)]) Mach.init = .ok (m, evs) ∧
+      replayG evs (fun _ _ => false) = some (fun _ _ => false) := by
+  obtain ⟨m, evs, h1, h2, h3⟩ := runEvX_replays (c := c) (ops ++ [(.finish, 0)]) _ _ (minv_init c)
+  have e : specRunX c (ops ++ [(.finish, 0)]) (fun _ => none) = fun _ => none := by
+    rw [specRunX_append]; rfl
+  rw [e] at h2
+  have hn : occR m.regs = fun _ _ => false := by
+    funext r
+    have := h2.rel r
+    cases hm : m.regs r with
+    | none => simp [occR, hm]
+    | some v => rw [hm] at this; exact this.elim
+  rw [occR_init, hn] at h3
+  exact ⟨m, evs, h1, h3⟩
+
+/-- a copy constructor whose second copy throws: construct 1.0, destroy 1.0 — the replay passes and nothing is live -/
+example : (match runEvX ⟨2, 2, false, true⟩ [(.new 0, 9), (.push 0 1, 9), (.push 0 2, 9), (.copy 1 0, 1)] Mach.init with
+    | .ok (_, evs) => decide (evs = [⟨0, .ctor, 0⟩, ⟨0, .ctor, 1⟩, ⟨1, .ctor, 0⟩, ⟨1, .dtor, 0⟩]) | _ => false) = true := by decide
+
+/-! ## unbounded_array: never outside its block -/
+
+/-- ONE operation of `unbounded_array` on the storage level (one heap block of
+    exactly `size` slots; an access at an index outside the block, a constructor
+    over a live element, a destructor / assignment on raw storage are faults):
+    no fault, in the contract exactly when the list-level meaning `ustep` is,
+    and the blocks then hold exactly the objects of the reference lists -/
+theorem ua_step_refines {K : Nat} {m : URegsS} {sp : URegs} (h : UInv m sp) (op : UOp) :
+    ∃ res, ustepS K m op = .ok res ∧ UOut res (ustep K sp op) :=
+  ustepS_refines h op
+
+/-- EVERY history of constructors (size, (ptr,len) / initializer list, copy, move),
+    `operator=`, `resize`, `fill`, `operator[]` writes, `clear`, destruction on K arrays:
+    never a write outside a block, and the reference lists -/
+theorem ua_history_refines (K : Nat) (ops : List UOp) :
+    ∃ m, urunS K ops (fun _ => none) = .ok m ∧ UInv m (urun K ops (fun _ => none)) :=
+  urunS_refines ops _ _ (fun _ => trivial)
+
+/-- `resize(n)` / `operator=`: the old block's elements are destroyed (each once),
+    the new block has exactly `n` / `|other|` slots, each constructed once, and
+    holds zeros / the other's elements -/
+theorem ua_resize_assign_exact {a o : UArr} {xs ys : List Nat} (ha : UAbs a xs) (ho : UAbs o ys) (n : Nat) :
+    (∃ a' tr, uResize a n = .ok (a', tr) ∧ a'.slots.length = n ∧ a'.size = n ∧
+      a'.contents = List.replicate n (some 0) ∧ nC tr = n ∧ nD tr = xs.length) ∧
+    (∃ a' tr, uAssign a o = .ok (a', tr) ∧ a'.slots.length = ys.length ∧ a'.size = ys.length ∧
+      a'.contents = ys.map some ∧ nC tr = ys.length ∧ nD tr = xs.length) := by
+  have cont : ∀ (b : UArr) (zs : List Nat), UAbs b zs → b.contents = zs.map some := by
+    intro b zs hb
+    apply List.ext_getElem?
+    intro p
+    simp only [UArr.contents, List.getElem?_map, List.getElem?_take, hb.size]
+    by_cases hp : p < zs.length
+    · simp [hp, hb.pt p, List.getElem?_eq_getElem hp, slotElem]
+    · have : zs[p]? = none := by simp; omega
+      simp [hp, this]
+  obtain ⟨a1, t1, p1, p2, p3, p4⟩ := uResize_spec ha n
+  obtain ⟨a2, t2, q1, q2, q3, q4⟩ := uAssign_spec ha ho
+  refine ⟨⟨a1, t1, p1, by simpa using p2.len, by simpa using p2.size, ?_, p3, p4⟩,
+    ⟨a2, t2, q1, q2.len, q2.size, cont _ _ q2, q3, q4⟩⟩
+  rw [cont _ _ p2]; simp
+
+example : UAbs ⟨some [.obj (some 4)], 1⟩ [4] :=
+  ⟨rfl, rfl, by intro p; match p with | 0 => rfl | (p + 1) => simp [UArr.slots]⟩
+
+/-- reads of `static_string::operator[]` at ANY position `≤ N` (the terminator
+    slot included) stay inside `data[N+1]` -/
+theorem ss_index_inside {N : Nat} {s : SStr} {es : List Byte} (h : SAbs N s es) {i : Nat} (hi : i ≤ N) :
+    ∃ b, sGetAny s i = .ok b := sGetAny_inside h hi
 
 end Igris.C14
